@@ -483,8 +483,19 @@ def run_check(prop_name, tier, replay=None, digests=None, quiet=False, runs_over
                 print('  clause=%s run=%d shrink_execs=%d detail=%s' % (clause, k, n_exec, jdump(detail)[:800]))
                 reported.append(path)
             else:
-                unconfirmed += 1
-                print('HARNESS-ERROR property=%s replay %s did not reproduce in a fresh interpreter' % (prop.ID, path))
+                # the minimiser ran in this (long-lived) process: if the code under test keeps state ACROSS monitor objects
+                # (a shared cache, a module-level table), candidates may have failed only because of earlier runs. Fall back
+                # to the scenario as generated and ask a fresh interpreter again.
+                detail0 = [v for v in res.violations if v['clause'] == clause][:1]
+                path0 = write_replay(prop, seed, k, clause, scenario, detail0, shrunk_from=None)
+                if detail0 and fresh_replay_fails(prop, path0):
+                    print('VIOLATION property=%s replay=%s' % (prop.ID, path0))
+                    print('  clause=%s run=%d (not minimised: the failure of smaller scenarios depended on state left by earlier runs in '
+                          'the same process) detail=%s' % (clause, k, jdump(detail0)[:700]))
+                    reported.append(path0)
+                else:
+                    unconfirmed += 1
+                    print('HARNESS-ERROR property=%s replay %s did not reproduce in a fresh interpreter' % (prop.ID, path))
         if len(reported) >= 5:
             break
 
